@@ -757,6 +757,17 @@ class Extractor:
         for name in sorted(self.reach):
             self.scan_module(self.mods[name])
         self.seed_point_patterns()
+        from harness.extract import effects_more as MO
+
+        G = MO.Graph(self.mods, self.reach)
+        self.graph = G
+        pf = MO.prologue_functions(self, G)
+        rel_of = {n: self.mods[n].rel for n in self.mods}
+        pkeys = {(rel_of[k[0]], k[1]) for k in pf}
+        self.prologue_funcs = sorted(pkeys)
+        self.copy_hooks = MO.copy_hooks(self, G)
+        self.copy_wiring = MO.copy_wiring(self, G)
+        self.nondet = MO.nondet_sites(self, G)
 
         def dedupe(rows, keys):
             seen, out = set(), []
@@ -771,6 +782,8 @@ class Extractor:
         self.seeds = dedupe(self.seeds, ("file", "line", "call", "gen", "func"))
         self.mutations = dedupe(self.mutations, ("file", "line", "target", "op", "func"))
         self.seed_points = dedupe(self.seed_points, ("file", "line", "kind", "func", "seeded"))
+        self.nondet = dedupe(self.nondet, ("file", "line", "kind", "call", "func"))
+        self.prologue_rng = [r for r in self.rng if (r["file"], r["func"]) in pkeys]
         return self
 
     def tables(self):
@@ -783,6 +796,12 @@ class Extractor:
             "seedSites": self.seeds,
             "seedPoints": self.seed_points,
             "sharedMutations": self.mutations,
+            "prologueRngSites": self.prologue_rng,
+            "prologueFunctions": len(self.prologue_funcs),
+            "functions": len(self.graph.funcs),
+            "copyHooks": self.copy_hooks,
+            "copyWiring": self.copy_wiring,
+            "nondetSites": self.nondet,
         }
 
 
@@ -828,12 +847,38 @@ def render(t):
         for r in t["sharedMutations"]))
     L.append("]")
     L.append("")
+    L.append("def prologueRngSites : List RngSite := [")
+    L.append(",\n".join(
+        f"  {{ file := {lstr(r['file'])}, line := {r['line']}, func := {lstr(r['func'])}, gen := .{r['gen']}, call := {lstr(r['call'])} }}"
+        for r in t["prologueRngSites"]))
+    L.append("]")
+    L.append("")
+    L.append("def copyHooks : List CopyHook := [")
+    L.append(",\n".join(
+        f"  {{ file := {lstr(r['file'])}, line := {r['line']}, cls := {lstr(r['cls'])}, hook := {lstr(r['hook'])}, deep := {'true' if r['deep'] else 'false'}, why := {lstr(r['why'])} }}"
+        for r in t["copyHooks"]))
+    L.append("]")
+    L.append("")
+    w = t["copyWiring"]
+    L.append(f"/-- simulate() ({w['file']}:{w['line']}): `infra = copy.deepcopy(infrastructure)` on every path -/")
+    L.append(f"def simulateDeepCopies : Bool := {'true' if w['deepCopies'] else 'false'}")
+    L.append("/-- simulate(): the parameter `infrastructure` is used nowhere but as the argument of that deepcopy -/")
+    L.append(f"def simulateUsesOnlyCopy : Bool := {'true' if w['usesOnlyCopy'] else 'false'}")
+    L.append("")
+    L.append("def nondetSites : List NondetSite := [")
+    L.append(",\n".join(
+        f"  {{ file := {lstr(r['file'])}, line := {r['line']}, func := {lstr(r['func'])}, kind := .{r['kind']}, call := {lstr(r['call'])} }}"
+        for r in t["nondetSites"]))
+    L.append("]")
+    L.append("")
     L.append("def reachableModules : List String := [")
     L.append(",\n".join("  " + lstr(x) for x in t["reachable_modules"]))
     L.append("]")
     L.append("")
     L.append("/-- the effect summary of the code base, as one record -/")
-    L.append("def tables : Tables := { rngSites := rngSites, seedPoints := seedPoints, sharedMutations := sharedMutations }")
+    L.append("def tables : Tables := { rngSites := rngSites, seedPoints := seedPoints, sharedMutations := sharedMutations,")
+    L.append("  prologueRngSites := prologueRngSites, copyHooks := copyHooks, simulateDeepCopies := simulateDeepCopies,")
+    L.append("  simulateUsesOnlyCopy := simulateUsesOnlyCopy, nondetSites := nondetSites }")
     L.append("")
     L.append("end LdarModel.Generated.Effects")
     return "\n".join(L) + "\n"
